@@ -74,6 +74,66 @@ func c03Jobs(tier string) []Job {
 				Name: fmt.Sprintf("%s.%s_n%d", l.Pkg, l.Type, n), Weight: n + 100*len(csFields(l)), MaxPaths: 40000})
 		}
 	}
+	// ---- dispatchers and auxiliary parsers
+	hdr := map[string]int{}
+	dirs := map[string]string{}
+	for _, l := range Layouts {
+		if l.Hdr != "none" {
+			hdr[l.Pkg] = 4 * hdrWords(l.Hdr)
+			dirs[l.Pkg] = l.Dir
+		}
+	}
+	for pkg, dir := range dirs {
+		for _, n := range []int{0, hdr[pkg] - 1, hdr[pkg], hdr[pkg] + 1, hdr[pkg] + 9} {
+			js = append(js, Job{Dir: dir, Harness: "VH_C03_dispatch", Params: map[string]int{"n": n}, Name: fmt.Sprintf("%s.dispatch_n%d", pkg, n), Weight: n + 20, MaxPaths: 40000})
+		}
+	}
+	for _, d := range []string{"cmpp", "smgp", "sgip", "smpp"} {
+		for _, n := range []int{0, 4, 11, 12, 15, 16, 19, 20, 24} {
+			js = append(js, Job{Dir: d, Harness: "VH_C03_headers", Params: map[string]int{"n": n}, Name: fmt.Sprintf("%s.headers_n%d", d, n)})
+		}
+	}
+	nf := []int{0, 3, 4, 5, 8, 9, 10}
+	if tier == "thorough" {
+		nf = []int{0, 1, 2, 3, 4, 5, 6, 7, 8, 9, 10, 11, 12, 13, 14}
+	}
+	for _, n := range nf {
+		js = append(js, Job{Dir: "smpp", Harness: "VH_C16_tlv_nofab", Params: map[string]int{"n": n}, Name: fmt.Sprintf("smpp.tlv_parsers_n%d", n), MaxPaths: 20000})
+		js = append(js, Job{Dir: "smgp", Harness: "VH_C16_opt_nofab", Params: map[string]int{"n": n}, Name: fmt.Sprintf("smgp.option_parsers_n%d", n), MaxPaths: 20000})
+	}
+	for n := 0; n <= 10; n++ {
+		js = append(js, Job{Dir: "", Harness: "VH_C07_parse", Params: map[string]int{"n": n}, Name: fmt.Sprintf("ParseLongSmsContent_n%d", n)})
+	}
+	rn := []int{0, 1, 3, 4, 6, 8}
+	if tier == "thorough" {
+		rn = []int{0, 1, 2, 3, 4, 5, 6, 7, 8, 10, 12}
+	}
+	for _, n := range rn {
+		js = append(js, Job{Dir: "smpp/smpp34", Harness: "VH_C03_smpp_receipt_raw", Params: map[string]int{"n": n}, Weight: 5 * n, MaxPaths: 40000})
+		js = append(js, Job{Dir: "smgp/smgp30", Harness: "VH_C03_smgp_receipt_raw", Params: map[string]int{"n": n}, Weight: 5 * n, MaxPaths: 40000})
+	}
+	for n := 0; n <= 14; n++ {
+		js = append(js, Job{Dir: "datacoding/gsm7encoding", Harness: "VH_C08_unpack_raw", Params: map[string]int{"n": n}, NoEnd: false, Name: fmt.Sprintf("gsm7.Unpack_n%d", n)})
+	}
+	for _, n := range []int{1, 2} {
+		js = append(js, Job{Dir: "datacoding/gsm7encoding", Harness: "VH_C08_decode_pair", Params: map[string]int{"n": n}, Name: fmt.Sprintf("gsm7.Decode_n%d", n), Weight: 30})
+	}
+	for _, n := range []int{0, 1, 2, 3} {
+		for packed := 0; packed <= 1; packed++ {
+			js = append(js, Job{Dir: "datacoding/gsm7encoding", Harness: "VH_C03_gsm7_decoder", Params: map[string]int{"n": n, "packed": packed}, Weight: 20 + n, MaxPaths: 40000})
+		}
+	}
+	for _, n := range []int{0, 1, 2} {
+		for smpp := 0; smpp <= 1; smpp++ {
+			js = append(js, Job{Dir: "", Harness: "VH_C03_content_decode", Params: map[string]int{"n": n, "smpp": smpp}, Weight: 30 + n, MaxPaths: 40000})
+		}
+	}
+	for codec := 0; codec <= 1; codec++ {
+		for _, m := range []int{0, 3, 4, 8} {
+			js = append(js, Job{Dir: "codec", Harness: "VH_C04_decode", Params: map[string]int{"M": m, "cur": 0, "codec": codec}, Name: fmt.Sprintf("codec%d.Decode_M%d", codec, m)})
+			js = append(js, Job{Dir: "codec", Harness: "VH_C04_blocked", Params: map[string]int{"M": m, "codec": codec, "fault": 0, "chunks": 2}, Name: fmt.Sprintf("codec%d.DecodeBlocked_M%d", codec, m), MaxPaths: 40000})
+		}
+	}
 	return js
 }
 
@@ -85,10 +145,11 @@ func init() {
 		Stubs:     pduStubs,
 		Bounds: map[string]string{
 			"input":      "every octet string of length N (all N octets symbolic): one job subsumes every truncation point, every substitution of count/length octets and every trailing garbage of that total length",
+			"auxiliary":  "dispatchers (N around the header size), header peekers (N 0..24), TLV/option parsers (N <= 10, thorough 14), ParseLongSmsContent (N <= 10), receipt parsers (N <= 8, thorough 12), gsm7 Unpack (N <= 14), Decode (N <= 2), decoding transformers (N <= 3), content decoders (N <= 2, every coding number), frame extractors (M <= 8)",
 			"N":          "quick: {0,1,3,4,11,12,13,19,20, min-1, min, min+1, min+4, min+one list entry(+1), min+5/+8 for optional parameters}; thorough: every N up to min+12 and around two list entries",
 			"no-hang":    "per-path instruction budget 400000+4000*N; exceeding it on a feasible path is reported as a violation (label unwind) and replayed natively under a wall-clock limit",
 			"allocation": "every make() whose size is symbolic must satisfy size <= 16*N+1024 at the allocation site",
 		},
-		Outside: []string{"inputs longer than the bound (64 KiB of the quantifier)", "coverage-guided fuzzing (another technique)", "time/memory proportionality constants beyond the two stated predicates"},
+		Outside: []string{"GB18030 text decoder (x/text tables not encoded)", "inputs longer than the bound (64 KiB of the quantifier)", "coverage-guided fuzzing (another technique)", "time/memory proportionality constants beyond the two stated predicates"},
 	})
 }
